@@ -172,7 +172,9 @@ func (d InstanceRegisterDelegate) OnRingInstanceRegister(l *BasicLifecycler, rin
 		tokens = instanceDesc.GetTokens()
 	}
 
-	takenTokens := ringDesc.GetTokens()
+	// The tokens we keep may not be in the ring (e.g. loaded from the tokens file), so they must be
+	// reported as taken too, otherwise the generator is allowed to return them again.
+	takenTokens := append(ringDesc.GetTokens(), tokens...)
 	newTokens := l.GetTokenGenerator().GenerateTokens(d.tokenCount-len(tokens), takenTokens)
 
 	// Tokens sorting will be enforced by the parent caller.
